@@ -39,6 +39,7 @@ def op_c11_flags(args):
     for b in kb:
         mask |= b
     n_nontrivial = 0
+    primed = 0
     for f in args["words"]:
         unknown = f & ~mask
         try:
@@ -51,6 +52,24 @@ def op_c11_flags(args):
             v.features["word_with_unknown_bit"] += 1
             if raised is None:
                 v.violate("unknown_bit_dropped", "to_flags_data", "to_flags_data(%#x) returned %r instead of raising (unknown bits %#x)" % (f, sorted(names), unknown))
+            elif primed < 6:
+                # history: from_flags_data returns an int a caller may do arithmetic on (it is an IntFlag member in
+                # fact); or-ing the unknown bit into a RETURNED value must not teach the converter that bit
+                primed += 1
+                try:
+                    _w = from_flags_data(set()) | unknown
+                    _w = from_flags_data(to_flags_data(f & mask)) | unknown
+                    _w = from_flags_data(to_flags_data(f & mask)) ^ f
+                except Exception:
+                    pass
+                v.features["unknown_word_retried_after_arithmetic"] += 1
+                try:
+                    names2 = to_flags_data(f)
+                except Exception:
+                    names2 = None
+                if names2 is not None:
+                    v.violate("unknown_bit_dropped", "to_flags_data_after_arithmetic",
+                              "to_flags_data(%#x) raised at first, but after `from_flags_data(...) | %#x` on a returned value it returns %r" % (f, unknown, sorted(names2)))
             continue
         v.features["word_known_only"] += 1
         if raised is not None:
